@@ -250,11 +250,14 @@ class BasicContiguousVector<cntgs::Options<Option...>, Parameter...>
 
     [[nodiscard]] constexpr bool empty() const noexcept { return locator_->empty(memory_begin()); }
 
-    [[nodiscard]] constexpr std::byte* data() noexcept { return locator_->element_address({}, memory_begin()); }
+    [[nodiscard]] constexpr std::byte* data() noexcept
+    {
+        return empty() ? data_end() : locator_->element_address({}, memory_begin());
+    }
 
     [[nodiscard]] constexpr const std::byte* data() const noexcept
     {
-        return locator_->element_address({}, memory_begin());
+        return empty() ? data_end() : locator_->element_address({}, memory_begin());
     }
 
     [[nodiscard]] constexpr std::byte* data_begin() noexcept { return data(); }
